@@ -728,6 +728,72 @@ func c10Lemmas(c *Ctx, p *Program) {
 		c.guard(p, "C10.lemma", fmt.Sprintf("a ciphertext of %d bytes is rejected", n), p.Func("cipher/ascon", "Cipher", "Open"),
 			GuardSpec{Args: map[string]lat{"ciphertext": latSliceLen(n), "nonce": latSliceLen(16)}})
 	}
+	// ascon: sliceForAppend re-slices its input up to total = len(in)+n only where cap(in) >= total holds
+	// (the fact the hand proof of the exception cites)
+	{
+		f := p.Func("cipher/ascon", "", "sliceForAppend")
+		what := "cipher/ascon.sliceForAppend: in[:total] is guarded by cap(in) >= total with total = len(in)+n"
+		if f == nil {
+			c.undecided("C10.lemma", what, "anchor function does not resolve", "")
+		} else {
+			isLenOrCap := func(v ssa.Value, name string) bool {
+				cl, ok := v.(*ssa.Call)
+				if !ok {
+					return false
+				}
+				bi, ok := cl.Call.Value.(*ssa.Builtin)
+				return ok && bi.Name() == name && len(cl.Call.Args) == 1 && cl.Call.Args[0] == ssa.Value(f.Params[0])
+			}
+			n, okAll := 0, true
+			why := ""
+			for _, b := range f.Blocks {
+				for _, in := range b.Instrs {
+					sl, ok := in.(*ssa.Slice)
+					if !ok || sl.X != ssa.Value(f.Params[0]) || sl.High == nil {
+						continue
+					}
+					n++
+					tot, ok := sl.High.(*ssa.BinOp)
+					if !ok || tot.Op != token.ADD || !((isLenOrCap(tot.X, "len") && tot.Y == ssa.Value(f.Params[1])) || (isLenOrCap(tot.Y, "len") && tot.X == ssa.Value(f.Params[1]))) {
+						okAll, why = false, "the upper bound "+descVal(sl.High)+" is not len(in)+n"
+						continue
+					}
+					guarded := false
+					for d := b; d != nil; d = d.Idom() {
+						pd := d.Idom()
+						if pd == nil {
+							break
+						}
+						ifi, ok := pd.Instrs[len(pd.Instrs)-1].(*ssa.If)
+						if !ok || len(d.Preds) != 1 {
+							continue
+						}
+						cmp, ok := ifi.Cond.(*ssa.BinOp)
+						if !ok {
+							continue
+						}
+						onTrue := pd.Succs[0] == d
+						ge := (cmp.Op == token.GEQ && isLenOrCap(cmp.X, "cap") && cmp.Y == ssa.Value(tot)) || (cmp.Op == token.LEQ && isLenOrCap(cmp.Y, "cap") && cmp.X == ssa.Value(tot))
+						lt := (cmp.Op == token.LSS && isLenOrCap(cmp.X, "cap") && cmp.Y == ssa.Value(tot)) || (cmp.Op == token.GTR && isLenOrCap(cmp.Y, "cap") && cmp.X == ssa.Value(tot))
+						if (ge && onTrue) || (lt && !onTrue) {
+							guarded = true
+						}
+					}
+					if !guarded {
+						okAll, why = false, "the re-slice at "+p.pos(sl.Pos())+" is not dominated by the test cap(in) >= len(in)+n"
+					}
+				}
+			}
+			switch {
+			case n == 0:
+				c.ok("C10.lemma", what, "the function no longer re-slices its input", p.fnPos(f))
+			case okAll:
+				c.ok("C10.lemma", what, fmt.Sprintf("%d re-slice(s) under the capacity test", n), p.fnPos(f))
+			default:
+				c.bad("C10.lemma", what, why, p.fnPos(f))
+			}
+		}
+	}
 	// hpke: the identifiers read from a serialized context are validated before the accessors that
 	// panic on unassigned identifiers are called
 	{
